@@ -1401,8 +1401,23 @@ WITNESSES = [
 ]
 
 
+def fixed_fprog_specs():
+    """always present, whatever the seed: one Payload object building nodes with a DECREASING number of inputs"""
+    src = {"fid": 0, "form": "callable", "args": [], "kwargs": [], "alias_of": None}
+    red = {"fid": 1, "form": "payload", "args": [], "kwargs": [], "alias_of": None}
+    red_s = {"fid": 1, "form": "payload", "args": [["lit", 3], ["str", "input1"]], "kwargs": [["k", ["none"]]], "alias_of": None}
+    out = []
+    for n, b in ((8, 3), (8, 4), (7, 5), (5, 2)):
+        out.append({"kind": "fprog", "flavour": "fixed", "pool": [src, red], "steps": [["source", [0] * n], ["reduce", 0, 1, b]], "publish_seed": n})
+    out.append({"kind": "fprog", "flavour": "fixed", "pool": [src, red_s], "steps": [["source", [0] * 8], ["reduce", 0, 1, 3]], "publish_seed": 1})
+    out.append({"kind": "fprog", "flavour": "fixed", "pool": [src], "steps": [["source", [0] * 8], ["builtin", 0, "sum", 3, [["q", ["lit", 1]]]]], "publish_seed": 2})
+    # a Payload held by the caller: a reduce over 3, a map (1 input), then a source (no input)
+    out.append({"kind": "fprog", "flavour": "fixed", "pool": [src, red], "steps": [["source", [0] * 3], ["reduce", 0, 1, 0], ["map", 0, 1], ["source", [1]]], "publish_seed": 3})
+    return out
+
+
 def gen_specs(ctx, rng):
-    specs = list(WITNESSES)
+    specs = list(WITNESSES) + stored(fixed_fprog_specs())
     for fl, n in (("plain", ctx.n(110, 5000)), ("odd", ctx.n(100, 4000)), ("mismatch", ctx.n(80, 3000)), ("many-outputs", ctx.n(30, 1000))):
         specs += [gen_graph_spec(rng, fl) for _ in range(n)]
     specs += [gen_shared_spec(rng) for _ in range(ctx.n(90, 3000))]
